@@ -81,6 +81,10 @@ def clause1_close(ctx, P, cg):
             elif rc == OK:
                 if closes:
                     bad = (v, "returns OK after closing the connection")
+            elif closes and key.endswith(":ws_handle_frame"):
+                # any other verdict (WS_ERROR) asks the CALLER to tear the connection down: doing it here as well is a second
+                # teardown of an already released websocket
+                bad = (v, "closes the connection and then returns verdict %s, on which the caller closes it again" % rc)
             for c in closes:
                 code = P.const_int(c.a[1])
                 if code is None or code not in RFC_CODES:
